@@ -143,11 +143,38 @@ type Program struct {
 
 // Context flavours: "the context's error" is ctx.Err() however the context came to be done.
 const (
-	CtxPlain = iota // context.WithCancel / WithTimeout
-	CtxCause        // WithCancelCause / WithTimeoutCause with a cause of the caller's own: Err() is still Canceled / DeadlineExceeded
-	CtxChild        // a value-carrying grandchild of the context that is cancelled (with a cause)
+	CtxPlain   = iota // context.WithCancel / WithTimeout
+	CtxCause          // WithCancelCause / WithTimeoutCause with a cause of the caller's own: Err() is still Canceled / DeadlineExceeded
+	CtxChild          // a value-carrying grandchild of the context that is cancelled (with a cause)
+	CtxForeign        // a context.Context that is not one of the standard library's (own Done channel, own Err)
 	NumCtxFlavors
 )
+
+// foreignCtx is a complete context implementation of the caller's own, as merged or bridged contexts are: the
+// context package knows nothing about its internals, so anything derived from it learns of a cancel only through Done().
+type foreignCtx struct {
+	mu       sync.Mutex
+	done     chan struct{}
+	err      error
+	deadline time.Time
+}
+
+func (c *foreignCtx) Deadline() (time.Time, bool) { return c.deadline, !c.deadline.IsZero() }
+func (c *foreignCtx) Done() <-chan struct{}       { return c.done }
+func (c *foreignCtx) Value(any) any               { return nil }
+func (c *foreignCtx) Err() error {
+	c.mu.Lock()
+	defer c.mu.Unlock()
+	return c.err
+}
+func (c *foreignCtx) cancel(err error) {
+	c.mu.Lock()
+	if c.err == nil {
+		c.err = err
+		close(c.done)
+	}
+	c.mu.Unlock()
+}
 
 var errCallersCause = errors.New("the caller's own cancellation cause")
 
@@ -597,6 +624,17 @@ func (s *sim) push(t *task, producer bool) {
 	}
 }
 
+// pushRightAfterCancel calls PushTask on every lane on the very goroutine that has just cancelled the context, before
+// any other goroutine gets a chance to run: "begins afterwards" includes "immediately afterwards", whatever the lane
+// has to do internally to learn of the cancel.
+func (s *sim) pushRightAfterCancel() {
+	s.directorPushing.Store(true)
+	for lane := 0; lane < s.p.LaneSize && lane < 4; lane++ {
+		s.push(s.newTask(TaskSpec{Kind: TInstant}, lane), true)
+	}
+	s.directorPushing.Store(false)
+}
+
 // Run executes the program. It must be called on the root goroutine of a synctest bubble.
 func Run(p Program) (res Result) {
 	s := &sim{p: p, gates: map[int]chan struct{}{}, opened: map[int]bool{}, start: time.Now()}
@@ -604,6 +642,14 @@ func Run(p Program) (res Result) {
 	s.res.FreezeHit = map[string]int{}
 	s.pinned = make([]atomic.Int32, p.LaneSize)
 	switch {
+	case p.CtxFlavor == CtxForeign:
+		fc := &foreignCtx{done: make(chan struct{})}
+		if p.Deadline > 0 {
+			fc.deadline = time.Now().Add(p.Deadline)
+			tm := time.AfterFunc(p.Deadline, func() { fc.cancel(context.DeadlineExceeded) })
+			defer tm.Stop()
+		}
+		s.ctx, s.cancel = fc, func() { fc.cancel(context.Canceled) }
 	case p.Deadline > 0 && p.CtxFlavor == CtxPlain:
 		s.ctx, s.cancel = context.WithTimeout(context.Background(), p.Deadline)
 	case p.Deadline > 0 && p.CtxFlavor == CtxCause:
@@ -690,6 +736,7 @@ func Run(p Program) (res Result) {
 				s.cancel()
 				s.cancelled.Store(true)
 				s.res.Cancelled = true
+				s.pushRightAfterCancel()
 				synctest.Wait()
 				s.quiescent(fmt.Sprintf("step %d (right after cancel)", i))
 			}
@@ -778,6 +825,7 @@ func (s *sim) shutdown(maxSleep time.Duration) {
 		s.cancel()
 		s.cancelled.Store(true)
 		s.res.Cancelled = true
+		s.pushRightAfterCancel()
 		synctest.Wait()
 		s.quiescent("right after the final cancel")
 	}
